@@ -186,8 +186,32 @@ def rules(ctx, db):
                "the worker loop runs each job it receives and then waits for the next one", f)
 
 
+def rule_completion_channel(ctx, db):
+    R = ctx.rule
+    R("R6", "TYPE/ctor", "the channel that carries finished blocking jobs (and cancelled entries) back to the driver is unbounded: "
+      "a pool worker never blocks in send() — the driver thread is its only drainer and may itself be busy retrying a "
+      "dispatch until a worker becomes idle")
+    ctors = []
+    for f in db.fns.values():
+        if not f.id.startswith("compio_driver::"):
+            continue
+        for bb, t in f.calls():
+            n = t.get("rfn") or t.get("fn") or ""
+            if re.match(r"^flume::(bounded|unbounded)$", n) and (t.get("ga") or [""])[0] == "compio_driver::Entry":
+                ctors.append((f, n))
+    drivers = [a for a in db.adts.values() if re.match(r"^compio_driver::sys::driver::(iour|poll)::Driver$", a["name"]) and
+               any(fl["ty"] == "flume::Sender<compio_driver::Entry>" for _, fl in db.adt_fields(a))]
+    if not drivers:
+        return
+    ctx.floor("R6", "completion channels (one per compiled driver)", len(ctors), len(drivers))
+    for f, n in ctors:
+        ctx.ob("R6", "completion-channel-unbounded:" + f.name, n == "flume::unbounded",
+               "created with %s" % n, f)
+
+
 def rules_all(ctx, db):
     rules(ctx, db)
+    rule_completion_channel(ctx, db)
     if ctx.tier == "thorough" and ctx.cfg == "A":
         from .. import witness
         witness.obligations(ctx, "C17")
